@@ -5,7 +5,7 @@ import json, subprocess
 SEQ = "E1 sequential history simulator (vsim, engine `seq`)"
 checks = {
  "C01": ("exploration", "seeded search over operation histories x backend stacks, step-by-step refinement check against an abstract-tree reference model", "7/C01",
-         "Every generated history (4-40 calls, wrong-type calls included) runs on a generated stack (Mem, Phys on tmpfs, Altroot, Overlay 1-3 layers, nestings, pre-populated lower layers); each result class/value and a full observable snapshot of every universe path and every listed path are compared with the reference model after every step. Sampling, not proof."),
+         "Every generated history (4-40 calls, wrong-type calls included) runs on a generated stack (Mem, Phys on tmpfs, Altroot, Overlay 1-3 layers, nestings, pre-populated lower layers); each result class/value and a full observable snapshot of every universe path and every listed path are compared with the reference model after every step. Sampling, not proof. Also: names with backslashes, an inner _wo, a .whiteout prefix and 250 bytes, non-canonical path expressions incl. successive joins from non-root bases, sparse observation (snapshots skipped for a few steps in a quarter of the runs), restarts of the adapters over the same layers."),
  "C02": ("exploration", "lock-step twin simulation MemoryFS vs PhysicalFS(tmpfs) with pairwise outcome and snapshot comparison", "7/C02",
          "The same generated history (incl. wrong-type calls, reader seek/read scripts, boundary-size and non-UTF-8 payloads) runs on an empty MemoryFS and an empty PhysicalFS; success/failure, named error classes where demanded, returned data and full snapshots must agree after every step."),
  "C03": ("exploration", "seeded search over unrestricted histories with a model-free tree invariant evaluated on full snapshots after every step", "7/C03",
@@ -19,9 +19,9 @@ checks = {
  "C08": ("exploration", "recorded simulation: call log of every layer plus deep before/after snapshots of lower layers", "7/C08",
          "Overlays of 2-4 layers (Mem/Phys/altroot/nested overlay layers, generated lower contents); after every step no mutating call may have reached a lower layer (or any layer during a pure observer), and type/bytes/created/modified of every lower entry are unchanged; 40% of the runs fail one underlying call. A third of the runs are replayed through the async port (AsyncOverlayFS stacks inside a tokio runtime, recorder on every async layer, half of them with a k-th-call failure), and a quarter of the all-memory runs end with a two-thread phase under the seeded scheduler (tail of the history split over two callers, or a targeted writer-vs-remover race on a lower-layer file): no mutating call may reach a lower layer under any explored schedule. Mutating calls issued while the simulator's own per-step snapshot (pure observers only) runs are reported as observer mutations too."),
  "C09": ("exploration", "seeded search over histories on pre-populated overlays, refinement check against the union model", "7/C09",
-         "Model initialised with the upper-shadows-lower union of generated type-consistent layer contents (1-4 layers, same path in several layers with different bytes), then C01's oracle with a mix biased to create-over-lower, remove-with-lower-children, append-to-lower."),
+         "Model initialised with the upper-shadows-lower union of generated type-consistent layer contents (1-4 layers, same path in several layers with different bytes), then C01's oracle with a mix biased to create-over-lower, remove-with-lower-children, append-to-lower. Also: a directory of a higher layer over a same-named file of a deeper one, wide directories (40-130 entries), large pre-existing lower files in byte mode, non-canonical path expressions, sparse observation (snapshots skipped for a few steps) and restarts of the adapters over the same layers."),
  "C10": ("exploration", "removal/re-creation cycle workload with tombstone, freshness and marker-hygiene monitors", "7/C10",
-         "1-4 cycles of removals (file, empty dir, remove_dir_all of lower subtrees), unrelated operations and re-creation with same/other type on 2-4 layer overlays; after every later step removed paths and former descendants are invisible to all six observers, re-created entries hold only new content, no listing/walk yields a bookkeeping name. In a third of the runs one re-creation is made to fail by an injected I/O error of an underlying call (a failed re-creation re-creates nothing), and part of the runs are replayed, with the same failure and seeded Pending injection, through the async overlay. The injected failure may also hit a removal: a removal the contract refuses (non-empty directory) that reports success under the failure counts as a removal of the whole subtree. An operation that needs its target to exist (append, read, remove, copy/move source, time setter) and succeeds on a removed, not re-created entry is reported as well."),
+         "1-4 cycles of removals (file, empty dir, remove_dir_all of lower subtrees), unrelated operations and re-creation with same/other type on 2-4 layer overlays; after every later step removed paths and former descendants are invisible to all six observers, re-created entries hold only new content, no listing/walk yields a bookkeeping name. In a third of the runs one re-creation is made to fail by an injected I/O error of an underlying call (a failed re-creation re-creates nothing), and part of the runs are replayed, with the same failure and seeded Pending injection, through the async overlay. The injected failure may also hit a removal: a removal the contract refuses (non-empty directory) that reports success under the failure counts as a removal of the whole subtree. An operation that needs its target to exist (append, read, remove, copy/move source, time setter) and succeeds on a removed, not re-created entry is reported as well. A quarter of the runs restart the stack once or twice (every adapter constructed anew over the same layers): deletions must persist across restarts, in the sync run and in the async mirror."),
  "C11": ("exploration", "seeded search over source trees and ordered filesystem pairs, refinement check against a two-filesystem model", "7/C11",
          "copy/move/copy_dir/move_dir/create_dir_all/remove_dir_all between same instance (fast paths), two instances of one backend and two different stacks; return values, both filesystems' full snapshots and refusal of existing destinations without side effects. A third of the histories (pairs of filesystems included) are replayed through AsyncVfsPath inside a tokio runtime against the same two-filesystem model (outcomes of the transfers, both trees after each of them)."),
  "C12": ("exploration", "error monitor over failing calls with disjoint inner/outer name pools", "7/C12",
@@ -31,7 +31,7 @@ checks = {
  "C14": ("exploration", "handle call scripts compared call by call with std::io::Cursor (count feedback), publish check at flush/drop", "7/C14",
          "read(n)/seek(Start|Current|End, off)/write/flush scripts on handles of every backend and adapter (EmbeddedFS readers included), offsets around 0, +-len, +-2^40, zero-length reads, writes past the end; short I/O and EINTR injected below adapters."),
  "C15": ("exploration", "lock-step sync/async twin simulation under seeded poll schedules (Pending injection in every inner future, stream and handle poll)", "7/C15",
-         "The same history (C01/C09 domain plus reader scripts, walk_dir and composite operations) runs on a sync stack and on two async twins built from the same spec and the same listing-order seeds; a PendFS wrapper at every layer boundary makes inner futures, listing streams (between items) and handle polls return Pending 0-3 times with two different densities; outcomes, error classes, stream items (walk: multiset + parent before child), reader results and full snapshots are compared after every step, the two poll schedules with each other, and on memory-backed stacks every Pending must be an injected one (bounded progress)."),
+         "The same history (C01/C09 domain plus reader scripts, walk_dir and composite operations) runs on a sync stack and on two async twins built from the same spec and the same listing-order seeds; a PendFS wrapper at every layer boundary makes inner futures, listing streams (between items) and handle polls return Pending 0-3 times with two different densities; outcomes, error classes, stream items (walk: multiset + parent before child), reader results and full snapshots are compared after every step, the two poll schedules with each other, and on memory-backed stacks every Pending must be an injected one (bounded progress). Also: create handles kept open across calls on other paths, invalid join arguments (trailing and all slashes), byte-mode payloads (64 KiB boundaries, ~200 KiB) in 8% of the runs, non-canonical path expressions, and RESTARTS: all three stacks rebuild their adapters over the same layers and must still agree."),
  "C16": ("exploration", "controlled thread scheduler at lock-acquisition granularity (hooked RwLock), linearizability against sequential runs of the real code", "7/C16",
          "Small programs (2-3 threads, <= 9 API calls: create_dir, create_file/append sessions as open+write+drop, remove_file, remove_dir, exists, metadata, read_dir, open+read on <= 4 overlapping paths, optional initial content) run on real threads under a baton scheduler that decides which thread passes each MemoryFS lock acquisition (seeded uniform and PCT depth 1-3, 60 schedules per program); the concurrent per-call results and final snapshot must equal those of some program-order-respecting sequential order, all of which are executed on a fresh MemoryFS; panics, deadlock (all threads blocked) and livelock (> 20000 decisions) are violations. A fifth of the programs are observer-vs-replacer races: one thread looks at an entry or its parent (metadata, exists, read_dir, read) while the other removes it and creates an entry of the other type with content at the same path."),
  "C17": ("exploration", "controlled thread scheduler at lock (MemoryFS) and trait-call (SimFS boundary) granularity over concurrent create_dir_all programs", "7/C17",
@@ -39,7 +39,7 @@ checks = {
  "C19": ("exploration", "time-mode histories with a shadow metadata oracle (no wall clock in any comparison)", "7/C19",
          "Three setters in all orders on files and directories with epoch/negative/sub-second/far values, interleaved with write sessions; metadata read immediately before/after: exact value, other fields/len/type/bytes unchanged, NotSupported or any error changes nothing, creation time survives appends on memory, adapters report the serving entry's timestamps; a support model (which stack supports which setter) decides accepted vs not-supported. Physical stacks are replayed through the async port inside a tokio runtime (field set exactly, others unchanged, unsupported = not-supported), and on all-physical overlays every async setter must be accepted or refused exactly as the sync one (an entry that lives only in a lower layer is refused)."),
  "C20": ("fault_enumeration", "per-operation exhaustive enumeration of the failing underlying call inside seeded histories", "7/C20",
-         "For every operation i of each seeded history a fault-free pass counts the N_i calls made into the wrapped filesystems; for every k in 1..N_i a fresh stack replays the prefix, fails call k (4 I/O error kinds, one-shot; sticky in 30% of histories) and judges: Ok => model value and full effect on a full snapshot, else an error (items of walk_dir count); never a panic; no mutating call on a lower overlay layer; after a verified success the rest of the history keeps tracking the model. Every 4th history on a stack without a physical layer is enumerated through the async port as well (PendFS k-th-call failure under seeded Pending injection)."),
+         "For every operation i of each seeded history a fault-free pass counts the N_i calls made into the wrapped filesystems; for every k in 1..N_i a fresh stack replays the prefix, fails call k (4 I/O error kinds, plus not-found for mutating calls; one-shot; sticky in 30% of histories) and judges: Ok => model value and full effect on a full snapshot, else an error (items of walk_dir count); never a panic; no mutating call on a lower overlay layer; after a verified success the rest of the history keeps tracking the model. Every 4th history on a stack without a physical layer is enumerated through the async port as well (PendFS k-th-call failure under seeded Pending injection)."),
 }
 notes = {
  "C01": "Trusted: the reference model (sim/src/model.rs, ~350 lines) encodes the contracts of DESIGN 3.3; PhysicalFS runs on the real kernel (tmpfs). One known finding (OverlayFS::remove_file on an empty directory, pinned by an existing test) is listed in known_findings.json.",
